@@ -1,6 +1,6 @@
 (* C13 model: series transformers over integer time.
-   A series is a start time plus its values; the observation at position i has time start + i
-   (contiguous integer index, the domain the property's shift clause talks about).
+   A series is the list of its (time point, value) observations in index order; the index may
+   start anywhere and may have gaps (e.g. the prediction index of a gapped forecasting horizon).
    Executable definitions only.  Fitted quantities that come out of numerical libraries (the
    seasonal vector of statsmodels' seasonal_decompose, the trend forecast, Box-Cox lambda, the
    scaler's statistics) are ORACLES: arguments of the model, read from the fitted object in the
@@ -9,51 +9,37 @@ From Coq Require Import ZArith QArith List Bool.
 Import ListNotations.
 Open Scope Z_scope.
 
-Definition series := (Z * list Q)%type.
-Definition sstart (s : series) : Z := fst s.
-Definition svals (s : series) : list Q := snd s.
-Definition slen (s : series) : Z := Z.of_nat (length (snd s)).
+Definition series := list (Z * Q).
+Definition sindex (s : series) : list Z := map fst s.
+Definition svals (s : series) : list Q := map snd s.
+(* y.index[0] (0 on the empty series, which fit rejects) *)
+Definition sstart (s : series) : Z := hd 0 (sindex s).
+Definition slen (s : series) : Z := Z.of_nat (length s).
 Fixpoint times_from (t : Z) (n : nat) : list Z :=
   match n with O => [] | S k => t :: times_from (t + 1) k end.
-(* the time index of a series *)
-Definition sindex (s : series) : list Z := times_from (fst s) (length (snd s)).
+(* a series on the contiguous index start, start+1, ... *)
+Definition contiguous (start : Z) (vals : list Q) : series :=
+  combine (times_from start (length vals)) vals.
 (* the same observations with every time point moved by k *)
-Definition shift_series (k : Z) (s : series) : series := (fst s + k, snd s).
-(* z.iloc[a : a+n] *)
-Definition stretch (s : series) (a : nat) (n : nat) : series :=
-  (fst s + Z.of_nat a, firstn n (skipn a (snd s))).
+Definition shift_series (k : Z) (s : series) : series := map (fun p => (fst p + k, snd p)) s.
 
 Definition zn (l : list Q) (i : Z) : Q := nth (Z.to_nat i) l 0%Q.
-
-(* ---- numpy primitives used by _align_seasonal ------------------------------------------------ *)
-(* np.roll(l, k): elements that roll beyond the last position re-enter at the first *)
-Definition np_roll {A} (l : list A) (k : Z) : list A :=
-  let n := Z.of_nat (length l) in
-  if n =? 0 then l
-  else let r := Z.to_nat (k mod n) in
-       skipn (length l - r) l ++ firstn (length l - r) l.
-(* np.resize(l, n): n elements, filled with repeated copies of l *)
-Fixpoint cycle_fill {A} (l cur : list A) (n : nat) : list A :=
-  match n with
-  | O => []
-  | S m => match cur with
-           | x :: r => x :: cycle_fill l r m
-           | [] => match l with
-                   | [] => []
-                   | x :: r => x :: cycle_fill l r m
-                   end
-           end
-  end.
-Definition np_resize {A} (l : list A) (n : Z) : list A := cycle_fill l l (Z.to_nat n).
 
 Fixpoint zip_with (f : Q -> Q -> Q) (a b : list Q) : list Q :=
   match a, b with
   | x :: a', y :: b' => f x y :: zip_with f a' b'
   | _, _ => []
   end.
-(* pandas: Series (op) ndarray is positional and keeps the Series' index *)
-Definition series_arr_op (f : Q -> Q -> Q) (s : series) (arr : list Q) : series :=
-  (sstart s, zip_with f (svals s) arr).
+(* pandas: Series (op) ndarray is positional and keeps the Series' index; Series (op) Series whose
+   indices are identical likewise *)
+Fixpoint series_arr_op (f : Q -> Q -> Q) (s : series) (arr : list Q) : series :=
+  match s, arr with
+  | (t, x) :: s', c :: arr' => (t, f x c) :: series_arr_op f s' arr'
+  | _, _ => []
+  end.
+(* a transformer acting on each observation through its own time point *)
+Definition tmap (F : Z -> Q -> Q) (s : series) : series :=
+  map (fun p => (fst p, F (fst p) (snd p))) s.
 
 (* ---- Deseasonalizer ------------------------------------------------------------------------- *)
 Inductive smodel := Additive | Multiplicative.
@@ -62,11 +48,13 @@ Record dstate := { d_sp : Z; d_model : smodel; d_t0 : Z; d_seasonal : list Q }.
 
 (* _get_duration(x, y, coerce_to_int=True) on integer time points *)
 Definition get_duration (x y : Z) : Z := x - y.
-(* shift = -_get_duration(y.index[0], self._y_index[0], ...) % self.sp
-   (Python: unary minus binds tighter than %, and % is the floor modulus = Z.modulo) *)
-Definition align_shift (y_first t0 sp : Z) : Z := (- get_duration y_first t0) mod sp.
+(* the position in seasonal_ that belongs to time t (Python % is the floor modulus = Z.modulo) *)
+Definition phase (t0 sp t : Z) : Z := get_duration t t0 mod sp.
+Definition comp_at (seasonal : list Q) (t0 sp t : Z) : Q := zn seasonal (phase t0 sp t).
+(* _align_seasonal: phase = [_get_duration(t, self._y_index[0]) % self.sp for t in y.index];
+   np.asarray(self.seasonal_)[phase] *)
 Definition align_seasonal (d : dstate) (s : series) : list Q :=
-  np_resize (np_roll (d_seasonal d) (align_shift (sstart s) (d_t0 d) (d_sp d))) (slen s).
+  map (fun ph => zn (d_seasonal d) ph) (map (fun t => phase (d_t0 d) (d_sp d) t) (sindex s)).
 
 Definition op_fwd (m : smodel) : Q -> Q -> Q :=
   match m with Additive => Qminus | Multiplicative => Qdiv end.
@@ -89,9 +77,27 @@ Definition des_update_rebased (d : dstate) (z : series) : dstate :=
 Definition des_after (upd : dstate -> series -> dstate) (d : dstate) (zs : list series) : dstate :=
   fold_left upd zs d.
 
-(* the seasonal component that belongs to time t *)
-Definition phase (t0 sp t : Z) : Z := (t - t0) mod sp.
-Definition comp_at (seasonal : list Q) (t0 sp t : Z) : Q := zn seasonal (phase t0 sp t).
+(* the previous implementation of _align_seasonal: roll the seasonal vector to the phase of the
+   FIRST time point and tile it over the length of the data *)
+Definition np_roll {A} (l : list A) (k : Z) : list A :=
+  let n := Z.of_nat (length l) in
+  if n =? 0 then l
+  else let r := Z.to_nat (k mod n) in
+       skipn (length l - r) l ++ firstn (length l - r) l.
+Fixpoint cycle_fill {A} (l cur : list A) (n : nat) : list A :=
+  match n with
+  | O => []
+  | S m => match cur with
+           | x :: r => x :: cycle_fill l r m
+           | [] => match l with
+                   | [] => []
+                   | x :: r => x :: cycle_fill l r m
+                   end
+           end
+  end.
+Definition np_resize {A} (l : list A) (n : Z) : list A := cycle_fill l l (Z.to_nat n).
+Definition align_roll_tile (d : dstate) (s : series) : list Q :=
+  np_resize (np_roll (d_seasonal d) ((- get_duration (sstart s) (d_t0 d)) mod d_sp d)) (slen s).
 
 (* ConditionalDeseasonalizer: the seasonality test is an oracle on (sp, training values) *)
 Definition neutral (m : smodel) : Q := match m with Additive => 0%Q | Multiplicative => 1%Q end.
@@ -116,7 +122,7 @@ Fixpoint poly_eval (coef : list Q) (x : Q) : Q :=
 Definition poly_trend (coef : list Q) (t0 : Z) (t : Z) : Q := poly_eval coef (inject_Z (t - t0)).
 
 (* ---- time-independent pointwise transformers ------------------------------------------------ *)
-Definition pw_apply (f : Q -> Q) (s : series) : series := (sstart s, map f (svals s)).
+Definition pw_apply (f : Q -> Q) (s : series) : series := tmap (fun _ => f) s.
 (* sklearn scalers on one column, as TabularToSeriesAdaptor applies them *)
 Definition std_fwd (m s x : Q) : Q := ((x - m) / s)%Q.
 Definition std_inv (m s y : Q) : Q := (y * s + m)%Q.
@@ -124,19 +130,28 @@ Definition minmax_fwd (s mn x : Q) : Q := (x * s + mn)%Q.
 Definition minmax_inv (s mn y : Q) : Q := ((y - mn) / s)%Q.
 Definition affine (a b x : Q) : Q := (a * x + b)%Q.
 Definition affine_inv (a b y : Q) : Q := ((y - b) / a)%Q.
+(* Box-Cox over abstract ln / exp / pow *)
+Definition boxcox (ln : Q -> Q) (pow : Q -> Q -> Q) (lam x : Q) : Q :=
+  if Qeq_bool lam 0 then ln x else ((pow x lam - 1) / lam)%Q.
+Definition inv_boxcox (exp : Q -> Q) (pow : Q -> Q -> Q) (lam y : Q) : Q :=
+  if Qeq_bool lam 0 then exp y else pow (lam * y + 1)%Q (1 / lam)%Q.
 
 (* OptionalPassthrough *)
 Definition opt_apply (passthrough : bool) (f : series -> series) (s : series) : series :=
   if passthrough then s else f s.
 
 (* transformers whose output values are a function of the input VALUES only (HampelFilter,
-   Imputer, ACF, PACF: positional access to the observations) *)
+   Imputer, CosineTransformer keep the index; ACF, PACF return a lag-indexed series) *)
 Definition positional_same_index (g : list Q -> list Q) (s : series) : series :=
-  (sstart s, g (svals s)).
-Definition positional_lag_index (g : list Q -> list Q) (s : series) : series := (0, g (svals s)).
+  combine (sindex s) (g (svals s)).
+Definition positional_lag_index (g : list Q -> list Q) (s : series) : series :=
+  contiguous 0 (g (svals s)).
 (* window selection by position (Z.iloc[w]) and by label (Z[w], the pre-fix HampelFilter) *)
 Definition take_pos (s : series) (w : list Z) : list (option Q) :=
-  map (fun p => if (0 <=? p) && (p <? slen s) then Some (zn (svals s) p) else None) w.
-Definition take_label (s : series) (w : list Z) : list (option Q) :=
-  map (fun p => let i := p - sstart s in
-                if (0 <=? i) && (i <? slen s) then Some (zn (svals s) i) else None) w.
+  map (fun p => if 0 <=? p then nth_error (svals s) (Z.to_nat p) else None) w.
+Fixpoint lookup (s : series) (t : Z) : option Q :=
+  match s with
+  | [] => None
+  | (u, x) :: r => if u =? t then Some x else lookup r t
+  end.
+Definition take_label (s : series) (w : list Z) : list (option Q) := map (lookup s) w.
